@@ -50,6 +50,11 @@ WellTyped(t) ==
                    /\ d.dt = 0 \/ t.op.n \in {"all", "any"}
                    /\ t.op.n \in {"all", "any"} => d.dt = 2
                    /\ t.op.p[1] = NoAxis \/ (t.op.p[1] >= -Len(d.sh) /\ t.op.p[1] < Len(d.sh))
+              [] t.op.n \in ArrayReductions2 ->
+                   LET nd == Len(d.sh)
+                       n1 == IF t.op.p[1] < 0 THEN t.op.p[1] + nd ELSE t.op.p[1]
+                       n2 == IF t.op.p[2] < 0 THEN t.op.p[2] + nd ELSE t.op.p[2]
+                   IN d.dt = 0 /\ nd >= 2 /\ n1 >= 0 /\ n1 < nd /\ n2 >= 0 /\ n2 < nd /\ n1 # n2
               [] t.op.n \in ArrayStats ->
                    /\ d.dt = 0
                    /\ t.op.p[1] = NoAxis \/ (t.op.p[1] >= -Len(d.sh) /\ t.op.p[1] < Len(d.sh))
